@@ -26,7 +26,7 @@ ASSUMPTIONS = [
 EVENTS = ["hit_cnt", "hit_cnt", "cnt_off", "cnt_on", "acc_1", "acc_2", "acc_3", "seq_1", "seq_2", "seq_3", "shot_on", "shot_off",
           "ach_enable", "ach_start", "ach_stop", "ach_complete", "ach_disable", "ach_reset", "pause_tim",
           "score_100", "score_100", "add_custom", "set_name", "start_gm2", "start_gm2", "stop_gm2", "q_1", "q_1", "q_2", "q_3",
-          "pause_q", "pause_q"]
+          "pause_q", "pause_q", "hit_sg1", "hit_sg2", "hit_sg3", "grp_rotate", "grp_rotate", "grp_rotate", "grp_rot_off"]
 op = st.one_of(
     st.tuples(st.just("ev"), st.sampled_from(EVENTS)).map(list),
     st.tuples(st.just("ev"), st.sampled_from(EVENTS)).map(list),
@@ -232,6 +232,43 @@ def check(case):
                           "their previous ball" % (k2, got_obs[k2], np_.number, val))
             del had_extra, ball
 
+        # ---- shot group model: lit/unlit states belong to the player, the position in the rotation pattern and the
+        # rotation switch start afresh with every ball (the group is a mode device of the game mode)
+        grp = {"sg": {}, "pos": 0, "rot": True, "ball": None}
+        ball_seq = [0]
+        ev.add_handler("ball_starting", lambda **kwargs: ball_seq.__setitem__(0, ball_seq[0] + 1), priority=10000)
+
+        def grp_step(evname):
+            g_ = m.game
+            if g_ is None or g_.player is None or not m.modes["gm"].active:
+                return
+            pn_ = g_.player.number
+            pl = g_.player                  # Player objects are per game (machine.game is one re-used mode object)
+            key = (id(pl), ball_seq[0])
+            if grp["ball"] != key:
+                grp["ball"], grp["pos"], grp["rot"] = key, 0, True
+            for ent in grp["sg"].setdefault("list", []):
+                if ent[0] is pl:
+                    sg = ent[1]
+                    break
+            else:
+                sg = [0, 0, 0]
+                grp["sg"]["list"].append((pl, sg))
+            if evname in ("hit_sg1", "hit_sg2", "hit_sg3"):
+                i = int(evname[-1]) - 1
+                sg[i] = min(1, sg[i] + 1)
+            elif evname == "grp_rot_off":
+                grp["rot"] = False
+            elif evname == "grp_rotate" and grp["rot"]:
+                d = "rl"[grp["pos"] % 2]
+                grp["pos"] += 1
+                sg[:] = [sg[2], sg[0], sg[1]] if d == "r" else [sg[1], sg[2], sg[0]]
+                classes.add("shot group rotated")
+            got = [g_.player["shot_sg%d" % (i + 1)] for i in range(3)]
+            if got != sg:
+                v("shot-group-state", "after %s player %d's shot group shows %r, their own history (states kept per player, "
+                  "rotation pattern r,l and rotation switch fresh with every ball) gives %r" % (evname, pn_, got, sg))
+
         start_game()
         for o in case["ops"]:
             if vio:
@@ -244,6 +281,8 @@ def check(case):
                 if k == "ev":
                     ev.post(o[1])
                     rig.run_ready()
+                    if o[1].startswith(("hit_sg", "grp_")):
+                        grp_step(o[1])
                 elif k == "shot":
                     m.switch_controller.process_switch("s_shot", 1, logical=True)
                     rig.run_ready()
